@@ -69,6 +69,15 @@ enum Target {
     One(Imp),
     Diff,
     Burst(Imp),
+    /// the client downlink after its write handle has been dropped (read-only mode of the task)
+    ReadOnly,
+}
+
+fn run_read_only(kind: Kind, cfg: Cfg, seq: &[Sym], w: &Wire) -> RunOut {
+    match catch_unwind(AssertUnwindSafe(|| client::run_read_only(kind, cfg, seq, w))) {
+        Ok(o) => o,
+        Err(p) => RunOut { panic: Some(panic_text(p)), ..Default::default() },
+    }
 }
 
 impl Target {
@@ -78,6 +87,7 @@ impl Target {
             Target::Diff => "client-vs-hosted",
             Target::Burst(Imp::Client) => "client-burst",
             Target::Burst(Imp::Hosted) => "hosted-burst",
+            Target::ReadOnly => "client-readonly",
         }
     }
     fn parse(s: &str) -> Option<Target> {
@@ -85,6 +95,7 @@ impl Target {
             "client-vs-hosted" => Some(Target::Diff),
             "client-burst" => Some(Target::Burst(Imp::Client)),
             "hosted-burst" => Some(Target::Burst(Imp::Hosted)),
+            "client-readonly" => Some(Target::ReadOnly),
             other => Imp::parse(other).map(Target::One),
         }
     }
@@ -115,6 +126,14 @@ fn fails(target: Target, mode: Mode, cfg: Cfg, seq: &[Sym], w: &Wire, runs: &mut
                 return None;
             }
             differ(&a, &b)
+        }
+        Target::ReadOnly => {
+            if seq.iter().any(|s| s.is_local()) {
+                return None;
+            }
+            *runs += 1;
+            let out = run_read_only(mode.kind, cfg, seq, w);
+            check(mode.kind, cfg, Imp::Client, seq, &out, mode.tolerant).mismatch
         }
         Target::Burst(imp) => {
             *runs += 2;
@@ -690,6 +709,101 @@ fn bfs_leg(sh: &Shared, leg: Bfs) {
 // ------------------------------------------------------------------------------------------------
 // robustness leg: every sequence, legal or not
 
+/// Every legal notification sequence up to `depth` on the client downlink whose write handle was
+/// dropped before the first notification (the task's read-only mode), against the reference fold.
+fn readonly_leg(sh: &Shared, kind: Kind, depth: usize, cap_s: f64) {
+    if vcommon::sched::is_worker() {
+        return;
+    }
+    let t0 = Instant::now();
+    let name = if kind == Kind::Value { "readonly-client-value" } else { "readonly-client-map" };
+    let alpha = alphabet(kind, false);
+    let mode = Mode { kind, tolerant: false, backing: Backing::Hash };
+    // work items: (configuration, first two symbols)
+    let mut items: Vec<(usize, Vec<Sym>)> = vec![];
+    for ci in 0..CFGS.len() {
+        for a in &alpha {
+            for b in &alpha {
+                items.push((ci, vec![*a, *b]));
+            }
+        }
+    }
+    let capped = AtomicBool::new(false);
+    let results = vcommon::par_map(&items, vcommon::ncpu(), |_, (ci, prefix)| {
+        let mut st = Stats::default();
+        let cfg = CFGS[*ci];
+        fn legal(kind: Kind, cfg: Cfg, seq: &[Sym]) -> Option<usize> {
+            let mut r = Ref::new(kind, cfg);
+            for s in seq {
+                if r.step(*s).class != Class::Legal {
+                    return None;
+                }
+            }
+            Some(r.post_term)
+        }
+        if legal(kind, cfg, prefix).is_none() {
+            return (st, true);
+        }
+        let mut stack: Vec<Vec<Sym>> = vec![prefix.clone()];
+        while let Some(seq) = stack.pop() {
+            if capped.load(Ordering::Relaxed) || t0.elapsed().as_secs_f64() > cap_s {
+                capped.store(true, Ordering::Relaxed);
+                return (st, false);
+            }
+            let mut extended = false;
+            if seq.len() < depth {
+                for a in &alpha {
+                    let mut s2 = seq.clone();
+                    s2.push(*a);
+                    if let Some(pt) = legal(kind, cfg, &s2) {
+                        if pt <= 1 {
+                            stack.push(s2);
+                            extended = true;
+                        }
+                    }
+                }
+            }
+            if extended {
+                continue; // every step of a prefix is checked through its maximal extensions
+            }
+            st.states += 1;
+            st.evals += 1;
+            st.transitions += seq.len() as u64;
+            let out = run_read_only(kind, cfg, &seq, &sh.wire);
+            let c = check(kind, cfg, Imp::Client, &seq, &out, false);
+            st.compared += c.compared_states as u64;
+            if presync_observed(&seq) {
+                st.nontrivial += 1;
+            }
+            if let Some(m) = c.mismatch {
+                st.failing_prefixes += 1;
+                let f = minimise(Target::ReadOnly, mode, *ci, &seq, &m, name, &sh.wire, &mut st.minimise_runs);
+                sh.record(name, f);
+            }
+        }
+        (st, true)
+    });
+    let mut total = Stats::default();
+    let mut all = true;
+    for (st, done) in results {
+        total.add(&st);
+        all &= done;
+    }
+    sh.ctx.add_leg(Leg {
+        name: name.to_string(),
+        engine: "E2-sequence-enum".into(),
+        states: total.states,
+        transitions: total.transitions,
+        evaluations: total.evals,
+        distinct_nontrivial: total.nontrivial,
+        rule: "every maximal legal notification sequence up to the depth bound (every prefix is checked step by step within it), in all four configurations, on the client task after its write handle was dropped; every callback compared with the reference fold".into(),
+        samples: vec![],
+        exhaustive: all && !capped.load(Ordering::Relaxed),
+        bounds: json!({"depth": depth, "alphabet": alpha.len(), "configurations": CFGS.len(), "wall_cap_s": cap_s}),
+        wall_s: t0.elapsed().as_secs_f64(),
+    });
+}
+
 fn robust_leg(sh: &Shared, kind: Kind, depth: usize, cap_s: f64) {
     let t0 = Instant::now();
     let alpha = alphabet(kind, true);
@@ -839,6 +953,8 @@ fn main() {
     bfs_leg(&sh, Bfs { name: "redundant-client-value", mode: m(Kind::Value, true, hash), local: false, depth: if q { 7 } else { 9 }, mask: CLIENT_OK, cap_s: 100.0 });
     bfs_leg(&sh, Bfs { name: "redundant-client-map", mode: m(Kind::Map, true, hash), local: false, depth: if q { 5 } else { 6 }, mask: CLIENT_OK, cap_s: if q { 20.0 } else { 300.0 } });
     bfs_leg(&sh, Bfs { name: "hosted-map-btree-backing", mode: m(Kind::Map, false, Backing::BTree), local: false, depth: if q { 5 } else { 6 }, mask: HOSTED_OK, cap_s: if q { 20.0 } else { 300.0 } });
+    readonly_leg(&sh, Kind::Value, if q { 8 } else { 10 }, if q { 30.0 } else { 300.0 });
+    readonly_leg(&sh, Kind::Map, if q { 5 } else { 6 }, if q { 30.0 } else { 300.0 });
     robust_leg(&sh, Kind::Value, if q { 6 } else { 8 }, if q { 30.0 } else { 300.0 });
     robust_leg(&sh, Kind::Map, if q { 4 } else { 5 }, if q { 30.0 } else { 400.0 });
 
